@@ -125,7 +125,7 @@ def execute(ctx, plan, name):
     out = ctx.path("traces", f"{name}.ndjson")
     root = ctx.path("dom", "x")[:-2]
     _, so, _ = vp.run_driver("drv-droporder", ["run", "--plan", pf, "--root", root, "--tag", tag(ctx), "--out", out,
-                                               "--jobs", 12 if ctx.quick else 14], timeout=14000)
+                                               "--jobs", 12 if ctx.quick else 14, "--batch", 16 if ctx.quick else 48], timeout=14000)
     return out, vp.last_json_line(so)
 
 
@@ -250,7 +250,8 @@ def _run(ctx):
     ctx.assumptions += [
         "object graphs (who holds a counted reference to whom, who borrows whom) of DropOrder.tla read from the code",
         "persistent per domain: <root>/nodes, <root>/services (directories) and the global management segment",
-        "each drop order runs in a child process of its own; watchdog 40 s for work that takes milliseconds",
+        "drop orders run in child processes (batches; a panic, abort or hang is attributed to the order in progress and the "
+        "not yet started orders are re-run in a fresh process); watchdog 60 s without output for work that takes milliseconds",
     ]
     patterns6 = P6 + ([] if quick else ["bb6"])
     # ---- 1. model: every reachable state of every graph
